@@ -822,6 +822,17 @@ func (t *tree) boolAttr(attrs map[string]string, key string, defaultValue bool) 
 func (t *tree) parseQuotedExpr(str string) ast.Node {
 	var tt = &tree{lex: lexExpr("", str)}
 	defer tt.lex.drain()
+	defer func() {
+		// an error inside the quoted expression is reported at the position of
+		// the attribute in the enclosing file (tt knows neither).
+		if e := recover(); e != nil {
+			if err, ok := e.(errortypes.ErrFilePos); ok {
+				var prefix = fmt.Sprintf("template %s:%d:%d: ", tt.name, err.Line(), err.Col())
+				t.errorf("in expression %q: %s", str, strings.TrimPrefix(err.Error(), prefix))
+			}
+			panic(e)
+		}
+	}()
 	return tt.parseExpr(0)
 }
 
